@@ -30,6 +30,12 @@ theorem c13_same_cycles (hA : Accepted D S) (hC : Cycle D v S run) (hl : LinkEn 
     (hS : ShapeC13 D a b L) : run a = true ↔ run b = true :=
   same_cycles hA hC hl hS
 
+-- OBLIGATION c13_same_cycles_nested : sentence 1 for a transaction b nested in a body a and declared simultaneous with it (plain simultaneous() used the way condition() uses it, a reached through call chains with conditional links: the merged call of b is then enabled by a.run, DerEn): under the added, driver-checked hypothesis ShapeC12 for the one-branch use (a, [b]) : a runs iff b runs
+theorem c13_same_cycles_nested (hA : Accepted D S) (hC : Cycle D v S run) {Dr : List (Nat × List Nat)}
+    {a b : Nat} {hd pr : Bool} (hS : ShapeC12 D ⟨a, [b], hd, pr⟩ L Dr) (hl : LinkEn D v run L) (hde : DerEn v run Dr) :
+    run a = true ↔ run b = true :=
+  same_cycles_nested hA hC hS hl hde
+
 -- OBLIGATION c13_data : sentence 2 for Connect (same added hypothesis ShapeC13) (exclusive write w and read r): in every cycle in which write runs, write and read each have exactly one active call site, read returns the argument passed to write at that site and write returns the argument passed to read (both directions, same cycle; any number of writers and readers)
 theorem c13_data (hA : Accepted D S) (hC : Cycle D v S run) (hn : D.SitesNodup) (hl : LinkEn D v run L)
     {w r : Nat} (hS : ShapeC13 D w r L) (hxw : D.nonexcl w = false) (hxr : D.nonexcl r = false)
@@ -112,6 +118,7 @@ end TxV.Core
 #print axioms TxV.Core.simultaneous_shape_connect
 #print axioms TxV.Core.c13_connect_family
 #print axioms TxV.Core.c13_same_cycles
+#print axioms TxV.Core.c13_same_cycles_nested
 #print axioms TxV.Core.c13_data
 #print axioms TxV.Core.c13_callers_together
 #print axioms TxV.Core.c13_shape_checker_sound
